@@ -13,6 +13,7 @@ import (
 	"context"
 	"encoding/json"
 	"fmt"
+	"reflect"
 	"sort"
 	"strings"
 	"testing"
@@ -119,7 +120,20 @@ func TestVerifLoadTasksBounded(t *testing.T) {
 					wantTasks = append(wantTasks, fmt.Sprintf("%s/%s table=t_%s_%s start=%d stop=%d chain=%d batch=%d conc=%d", r.Name, n, n, e.origin, r.Start, r.Stop, chain, batch, conc))
 				}
 			}
+			seenDecoder := map[uintptr]string{}
 			for _, task := range tasks {
+				// every destination decodes into state of its own (tasks and the
+				// concurrency slots of one task run at the same time)
+				for di, d := range task.dests {
+					if ig, ok := d.(dig.Integration); ok {
+						p := reflect.ValueOf(ig).FieldByName("resultCache").Pointer()
+						who := fmt.Sprintf("%s/%s#%d", task.srcName, task.destConfig.Name, di)
+						if other, dup := seenDecoder[p]; dup && p != 0 {
+							fail("%s: destinations %s and %s share one decoder state", desc, other, who)
+						}
+						seenDecoder[p] = who
+					}
+				}
 				// C04: the names a task writes under are the same everywhere: the
 				// Task fields, the context values read by the row builder, and the
 				// destination built from the integration
@@ -167,6 +181,7 @@ func TestVerifLoadTasksBounded(t *testing.T) {
 		`{"name":"db","enabled":true,"sources":[{"name":"bonly","start":5}],"table":` + tbl("tdb") + `,"event":` + evApproval + `}`,
 		`{"name":"dc","sources":[{"name":"fs"}],"table":` + tbl("tdc") + `,"event":` + evTransfer + `}`,
 		`{"name":"dd","enabled":true,"sources":[{"name":"conly","start":9,"stop":9},{"name":"zero","start":9,"stop":3}],"table":` + tbl("tdd") + `,"event":` + evApproval + `}`,
+		`{"name":"DA","enabled":true,"sources":[{"name":"fs","start":300}],"table":` + tbl("tDA") + `,"event":` + evApproval + `}`,
 	}
 	fileText := `{"eth_sources":[
  {"name":"fs","chain_id":11,"url":"http://127.0.0.1:1","batch_size":7,"concurrency":2},
@@ -181,8 +196,9 @@ func TestVerifLoadTasksBounded(t *testing.T) {
 		"conly/dd": "start=9 stop=9 chain=13 batch=1 conc=4 topic=" + approvalHash,
 		"zero/dd":  "start=9 stop=3 chain=0 batch=6 conc=1 topic=" + approvalHash,
 		"bonly/fa": "start=77 stop=77 chain=12 batch=13 conc=1 topic=" + transferHash,
+		"fs/DA":    "start=300 stop=0 chain=11 batch=7 conc=2 topic=" + approvalHash,
 	}
-	perms := [][]int{{0, 1, 2, 3}, {1, 0, 3, 2}, {3, 2, 1, 0}, {2, 3, 0, 1}, {0}, {1}, {3}}
+	perms := [][]int{{0, 1, 2, 3}, {1, 0, 3, 2}, {3, 2, 1, 0}, {2, 3, 0, 1}, {0}, {1}, {3}, {0, 4}, {4, 0}, {4, 3, 0}}
 	for _, perm := range perms {
 		cases++
 		var file config.Root
@@ -194,7 +210,7 @@ func TestVerifLoadTasksBounded(t *testing.T) {
 		present := map[string]bool{"fa": true}
 		for _, k := range perm {
 			fpg.integrations = append(fpg.integrations, rows[k])
-			present[[]string{"da", "db", "dc", "dd"}[k]] = true
+			present[[]string{"da", "db", "dc", "dd", "DA"}[k]] = true
 		}
 		tasks, err := loadTasks(context.Background(), fpg.pool(t), file)
 		if err != nil {
